@@ -699,7 +699,7 @@ def run(ctx) -> None:
     fam = verify_family(ctx.eng)
     ctx.guard(r01_8)
     from .c15 import r15_3
-    ctx.guard_as("R01.9", r15_3)  # the crit defence: a verifier that does not implement b64 does not know the parameter (header tables = RFC tables)
+    ctx.guard_as("R01.9", r15_3, "jws")  # the crit defence: a verifier that does not implement b64 does not know the parameter (header tables = RFC tables)
     ctx.extra["verify_family"] = [f.short for f in fam]
     ctx.guard(r01_1, fam)
     ctx.guard(r01_2, fam)
